@@ -2,11 +2,12 @@
 """regenerate the seeded-change table in DESIGN.md from seeded/*/meta.json"""
 import glob, json, os, re
 V = os.path.dirname(os.path.dirname(os.path.abspath(__file__)))
-rows = ["| change | files | needs to manifest | caught by | not caught by |", "|---|---|---|---|---|"]
+rows = ["| change | origin | files | needs to manifest | caught by | not caught by |", "|---|---|---|---|---|---|"]
 for d in sorted(glob.glob(V + "/seeded/*/")):
     m = json.load(open(d + "meta.json"))
     name = os.path.basename(d.rstrip("/"))
-    rows.append(f"| {name} | {', '.join(x.replace('fibertree/', '') for x in m['files_changed'])} | {m['needs_to_manifest']} | "
+    origin = "white-box (7.7)" if m["origin"].startswith("white-box") else "independent"
+    rows.append(f"| {name} | {origin} | {', '.join(x.replace('fibertree/', '') for x in m['files_changed'])} | {m['needs_to_manifest']} | "
                 f"{'; '.join(m['detected_by']) or '-'} | {'; '.join(m['not_detected_by']) or '-'} |")
 p = V + "/DESIGN.md"
 s = open(p).read()
